@@ -174,6 +174,32 @@ def histories_app(chk, g, d, budget=1):
             shutil.rmtree(x, ignore_errors=True)
 
 
+def histories_same_name(chk, g, d):
+    """two configuration files with the same base name in two folders (a model and a tweaked copy of it), simulated in one process in the order
+    nominal, tweaked, nominal: what a file gives depends on its content, not on what was loaded under that name before"""
+    import simdrive
+    src = open(simdrive.config_path('toy_point_source.py')).read()
+    folders = {}
+    for tag, text in (('nominal', src), ('tweaked', src.replace('pl_norm = 10.', 'pl_norm = 14.').replace('pd = 0.1', 'pd = 0.3'))):
+        folders[tag] = os.path.join(d, 'cfg_' + tag)
+        os.makedirs(folders[tag], exist_ok=True)
+        open(os.path.join(folders[tag], 'mymodel.py'), 'w').write(text)
+    seed = int(g.integers(1, 10 ** 6))
+    dig = []
+    for k, tag in enumerate(('nominal', 'tweaked', 'nominal')):
+        out_ = os.path.join(d, 'same_%d' % k)
+        os.makedirs(out_, exist_ok=True)
+        files = simdrive.app_run(os.path.join(folders[tag], 'mymodel.py'), os.path.join(out_, 'sim'), duration=300., seed=seed)
+        dig.append(table_digest(files[0]))
+    chk.case(dict(op='xpobssim-app', history='nominal/mymodel.py, tweaked/mymodel.py, nominal/mymodel.py in one process', seed=seed), nontrivial=True)
+    if dig[0] != dig[2]:
+        chk.fail('impl', 'xpobssim: the same configuration file and seed give different tables after a file of the same base name in another folder was simulated',
+                 dict(oracle='app-same-name', seed=seed))
+    if dig[1] == dig[0]:
+        chk.fail('impl', 'xpobssim: a configuration file with another spectrum and polarization, but the base name of a file simulated earlier in the process, gives the tables of that earlier file',
+                 dict(oracle='app-same-name', seed=seed))
+
+
 def histories_options(chk, g, d):
     """runs with rarely used options whose state lives in module-level caches: gray-filter responses after the standard ones (and the
     reverse), GEM charging twice in a row on the same detector unit"""
@@ -244,6 +270,36 @@ def post_apps(chk, g, d):
                          dict(oracle='post-app', app=name, seed=seed))
         else:
             continue
+    # several files in one call (the three detector units of an observation): one seed, one stream running through the files — each file gets its
+    # own stretch of it, and the whole call is reproducible
+    import shutil
+    from astropy.io import fits
+    for name, fn, parser in (('xpstokesrandom', xpstokesrandom.xpstokesrandom, xpstokesrandom.PARSER), ('xpstokesshuffle', xpstokesshuffle.xpstokesshuffle, xpstokesshuffle.PARSER)):
+        if name in chk.extra.get('not_runnable', {}):
+            continue
+        seed = int(g.integers(1, 10 ** 5))
+        runs = []
+        for rep in range(2):
+            srcs = []
+            for du in (1, 2, 3):
+                src = os.path.join(d, '%s_multi_r%d_du%d.fits' % (name, rep, du))
+                shutil.copy(base, src)
+                srcs.append(src)
+            if rep == 1:
+                numpy.random.random(int(g.integers(1, 3000)))
+            outl = fn(**parser.parse_args(srcs + ['--seed', str(seed)]).__dict__)
+            cols = []
+            for o in outl:
+                with fits.open(o) as h:
+                    cols.append(numpy.array(h['EVENTS'].data['Q'], dtype=float))
+            runs.append(cols)
+        chk.case(dict(op=name, seed=seed, files=3), nontrivial=True)
+        if any(not numpy.array_equal(a, b) for a, b in zip(runs[0], runs[1])):
+            chk.fail('impl', '%s --seed %d on three files: the outputs of two identical calls differ' % (name, seed), dict(oracle='post-app-multi', app=name, seed=seed))
+        same = [(i + 1, j + 1) for i in range(3) for j in range(i + 1, 3) if numpy.array_equal(runs[0][i], runs[0][j])]
+        if same:
+            chk.fail('impl', '%s --seed %d on the three files of an observation: files %s come out with identical Q columns (the same stretch of the random stream)' % (name, seed, same),
+                     dict(oracle='post-app-multi', app=name, seed=seed, identical=same))
 
 
 def dynamic_sites(chk, d):
@@ -279,6 +335,7 @@ def main(chk):
     with scratch() as d:
         histories_obssim(chk, g, d)
         histories_app(chk, g, d, 1 if chk.tier == 'quick' else 4)
+        histories_same_name(chk, g, d)
         histories_options(chk, g, d)
         post_apps(chk, g, d)
         dynamic_sites(chk, d)
